@@ -45,6 +45,9 @@ func (World) Assumptions(string) []string {
 		"a shift is applied only if it cannot give the twins legitimately different information; excluded (the batch is then delivered to both twins at once): (a) windows containing an event that forgets headers or recomputes the final checkpoint without purging - RemoveHeader/rollback, ResetFork, ResetProbableHighestNonce, forced rollback, RestoreToGenesis and the self-notarized callback; (b) windows with round ticks that change a header's own classification (received-too-late: round < index-1; too early: round > index+1) between the two delivery times; (c) plans in which any header has a wrong timestamp (the blacklist is stateful: a child is rejected only if it arrives after its blacklisted parent)",
 		"observed on the UNCHANGED shard detector and therefore excluded by (a): a header that arrives before a self-notarized callback moves the final checkpoint past it (roundDif < nonceDif) stays stored until the next processed block purges it and CheckFork may select it as fork, while the same header arriving after the callback is rejected by checkBlockBasicValidity (ErrHigherNonceInBlock/ErrLowerRoundInBlock); windows containing processed blocks are NOT excluded because doJobOnBHProcessed purges with the same criterion that AddHeader rejects with",
 		"also observed on the UNCHANGED detector and excluded: highestNonceReceived keeps the nonce of a header that was accepted and later purged as invalid, while the same header arriving after the final checkpoint moved is rejected before it is counted; shouldSignalFork's same-round tie-break (!higherNonceReceived) and computeForkInfo's too-late rule read that value. The driver mirrors it from observable results (highest nonce for which AddHeader returned nil, per twin) and does not compare the fork verdicts (final nonce/hash still are) while the two values differ",
+		"notarization shift: a self-notarized callback (also for the block the node is about to process: a lagging node) may reach one twin 1-10 events later than the other, but only across ResetProbableHighestNonce / ResetFork / round ticks / CheckFork / SetRollBackNonce and only while no other shifted delivery is outstanding; header arrivals and processed blocks are excluded from these windows because of the header-vs-callback order dependence described above",
+		"third order dependence of the UNCHANGED detector, excluded narrowly: the callback does not update probableHighestNonce while Reset* recomputes it from the stored headers (notarized entries included), so callback-then-reset and reset-then-callback leave different values and isConsensusStuck (isSyncing) may differ; fork verdicts are not compared at a check where exactly one twin returns the stuck signature and ProbableHighestNonce() differs between the twins (final nonce/hash still are)",
+		"RemoveHeader for a header that failed processing is issued only for nonces above the own head (doJobOnSyncBlockFail removes the candidate for the next block): RemoveHeader drops the checkpoint of its nonce whatever the hash, so removing a foreign hash at a nonce the own chain holds would un-checkpoint the own block and make Reset* forget its processed entry",
 		"a SetRollBackNonce request is tracked per twin (inside a shift window one twin may be 'stuck', which has priority, and report the request one check later); the fork verdicts are not compared at a check where only one twin still holds the request",
 		"RestoreToGenesis empties the driver's own chain; a rollback request made before the restore stays 'requested' (the unchanged detector keeps rollBackNonce across RestoreToGenesis), a restore itself requests nothing",
 		"clause (ii) also demands equal GetHighestFinalBlockNonce/Hash on the twins (DESIGN.md C20): the final checkpoint bounds which nonces CheckFork may select",
@@ -56,7 +59,7 @@ func (World) Assumptions(string) []string {
 func (World) Rule(string) string {
 	return "block tree of 3-15 nonces (optionally starting from a non-zero start header), 1-3 competing headers per nonce with parent links, rounds increasing with nonce (same-round competitors, a silent gap of 11-18 rounds in 30% of the runs), epochs 0-3 with epoch-change forks, 1-6 byte hashes, a few headers with a wrong timestamp; " +
 		"<=60 events: round ticks, batches of received/proposed headers of one nonce (twin B gets every batch of >=2 headers in a different, never identical, order), processed headers with self-notarized lists, self-notarized callbacks (also for competing headers and foreign shards), rollback of the head, RemoveHeader, SetRollBackNonce, ResetProbableHighestNonce, ResetFork, forced rollback after the stuck signature, RestoreToGenesis (15% of runs), CheckFork after every event (70% of runs) or on explicit check steps; " +
-		"in 60% of the runs up to 40% of the batches reach one of the twins 1-5 events later than the other (cross-batch order); arm schedule-faults adds delay (1-4 rounds), duplicate and reorder (early arrival, swapped batches) to the arrival schedule; shard or meta detector per run; " +
+		"in 40% of the shard runs the notarization of the next block arrives before the node processed it, usually followed by 1-2 recovery calls (ResetProbableHighestNonce / ResetFork) and shifted across them between the twins; in 60% of the runs up to 23% of the batches reach one of the twins 1-5 events later than the other (cross-batch order); arm schedule-faults adds delay (1-4 rounds), duplicate and reorder (early arrival, swapped batches) to the arrival schedule; shard or meta detector per run; " +
 		"non-trivial = a permuted batch with >=2 accepted competing headers or an accepted shifted batch, an accepted processed header and a twin comparison at a CheckFork afterwards; distinct = hash of full plan"
 }
 
